@@ -2,6 +2,7 @@ package vanguard
 
 import (
 	"net/http"
+	"time"
 )
 
 const refMaxInt64 = uint64(1<<63 - 1)
@@ -331,4 +332,31 @@ func hTimeoutGrpcTooLong() {
 	verifObsBool("rejected", err != nil)
 	verifReach("too-many-digits")
 	verifAssert(err != nil, "Grpc-Timeout with more than 8 digits rejected")
+}
+
+// hTimeoutRESTFixed: towards a REST backend (X-Server-Timeout, decimal seconds) for a handful of concrete
+// deadlines including zero - floating point formatting is not encoded symbolically, so this slice is by value:
+// the header is present whenever the client set a deadline, reads back as a duration, and never exceeds it.
+func hTimeoutRESTFixed() {
+	durations := []time.Duration{0, time.Nanosecond, time.Millisecond, 1500 * time.Millisecond, time.Second, 90 * time.Minute, 8 * time.Hour}
+	d := durations[verifChoose("deadline", len(durations))]
+	has := verifChoose("hasTimeout", 2) == 1
+	out := http.Header{}
+	restServerProtocol{}.addProtocolRequestHeaders(requestMeta{codec: CodecJSON, hasTimeout: has, timeout: d}, out)
+	vals, present := out["X-Server-Timeout"]
+	verifObsBool("present", present)
+	verifReach("rest-timeout")
+	if !has {
+		verifAssert(!present, "no timeout in => no X-Server-Timeout out")
+		return
+	}
+	verifAssert(present && len(vals) == 1 && vals[0] != "", "a client deadline (including an already expired one) is conveyed to a REST backend")
+	if !present || len(vals) != 1 || vals[0] == "" {
+		return
+	}
+	verifObsStr("x-server-timeout", vals[0])
+	back, err := restDecodeTimeout(vals[0])
+	verifAssert(err == nil, "produced X-Server-Timeout reads back")
+	verifAssert(back <= d, "deadline never extended")
+	verifAssert(d-back < time.Microsecond, "shortfall below one microsecond")
 }
